@@ -161,6 +161,10 @@ class FakeConsumerClient:
 
     def send_offset_commit_request(self, group, payloads, **kw):
         self.commits_sent.append(payloads[0].offset)
+        c = getattr(self, 'consumer', None)
+        if c is not None and payloads[0].offset != c._last_processed_offset:
+            # C03: "the value sent is the last-processed offset at the moment the commit is issued" (first attempts and retries alike)
+            raise Hit('C03:commit-value-is-not-the-last-processed-offset', (payloads[0].offset, c._last_processed_offset))
         return self._mk('commit', payloads[0])
 
 
@@ -204,6 +208,7 @@ def consumer_scenario(rnd, script, group=True, gaps=False):
     c = Consumer(client, 't', 0, processor, consumer_group='g' if group else None,
                  auto_commit_every_n=rnd.choice([1, 2, 0]) if group else None, auto_commit_every_ms=0 if group else None,
                  request_retry_init_delay=0.5, request_retry_max_delay=2.0)
+    client.consumer = c
     start_results = []
     start_offset = 0
     sd = c.start(start_offset)
@@ -224,10 +229,12 @@ def consumer_scenario(rnd, script, group=True, gaps=False):
             if clock.getDelayedCalls():
                 raise Hit('C13:timer-left-after-stop', [str(dc) for dc in clock.getDelayedCalls()])
 
-    for step in range(rnd.choice([4, 6, 8, 10])):
+    for step in range(rnd.choice([4, 6, 8, 10, 12])):
         choices = ['advance']
         if client.pending:
             choices += ['reply', 'reply', 'fail_reply']
+        if any(k == 'commit' and not d_.called for k, d_, _ in client.pending):
+            choices += ['fail_commit'] * 3
         if proc_pending:
             choices += ['proc_ok', 'proc_ok', 'proc_fail']
         if state['stopped_at'] is None:
@@ -256,6 +263,12 @@ def consumer_scenario(rnd, script, group=True, gaps=False):
                     d.callback([OffsetFetchResponse('t', 0, -1, b'', 0)])
                 else:
                     d.callback([])
+            elif ev == 'fail_commit':
+                # the commit reply overtakes whatever else is pending and is a retriable error: the retry timer is armed
+                i = [j for j, (k, d_, _) in enumerate(client.pending) if k == 'commit' and not d_.called][0]
+                kind, d, info = client.pending.pop(i)
+                if not d.called:
+                    d.errback(Failure(RequestTimedOutError('commit timed out')))
             elif ev in ('proc_ok', 'proc_fail'):
                 d, offs = proc_pending.pop(0)
                 state['in_processor'] -= 1
@@ -951,6 +964,18 @@ def scenario_assignment(rnd, n):
         tp = {t: sorted(r.sample(range(10), r.choice([0, 1, 2, 3, 5]))) for t in topics}
         script.extend([('members', members), ('subs', subs), ('partitions', tp)])
         results = []
+        if r.random() < 0.5:
+            # the protocol object lives as long as the coordinator: an earlier rebalance, with another member set and other
+            # subscriptions, was abandoned after the first generate_assignments() call (the one that only asks for the
+            # partitions to be loaded) - it must leave nothing behind
+            earlier = ['m%d' % i for i in r.sample(range(9), r.choice([1, 2, 3]))]
+            esubs = {m: r.sample(topics, r.choice(range(1, len(topics) + 1))) for m in earlier}
+            script.append(('abandoned-earlier-rebalance', esubs))
+            try:
+                proto.generate_assignments(
+                    [_JoinGroupResponseMember(m, KafkaCodec.encode_join_group_protocol_metadata(0, esubs[m], b'')) for m in earlier], {})
+            except Exception:
+                pass
         for perm in itertools.islice(itertools.permutations(members), 6):
             ms = [_JoinGroupResponseMember(m, KafkaCodec.encode_join_group_protocol_metadata(0, subs[m], b'')) for m in perm]
             enc = proto.generate_assignments(ms, tp)
@@ -1118,8 +1143,18 @@ def scenario_group(rnd, n):
             return defer.succeed(BrokerMetadata(1, 'h', 1))
         client._get_coordinator_for_group.side_effect = coord
         client.load_metadata_for_topics.side_effect = lambda *t: (defer.fail(KafkaUnavailableError('x')) if r.random() < 0.2 else defer.succeed(True))
-        client._load_topic_partitions.side_effect = lambda *t: defer.succeed({'t': list(parts)})
+        load_fail = [False]
+
+        def ltp(*t):
+            # transient metadata failure at the leader's partition lookup: the rebalance is abandoned between the two
+            # generate_assignments() calls and retried after the back-off
+            if load_fail[0]:
+                load_fail[0] = False
+                return defer.fail(Failure(KafkaUnavailableError('partition lookup failed')))
+            return defer.succeed({'t': list(parts)})
+        client._load_topic_partitions.side_effect = ltp
         client.topic_partitions = {'t': parts}
+        members = ['me']             # the group as the coordinator lists it in the next JoinGroup response
 
         def srtc(group, payload, encoder_fn, decode_fn, **kw):
             kind = type(payload).__name__
@@ -1135,14 +1170,20 @@ def scenario_group(rnd, n):
                     given.extend(a.assignments.get('t', ()))
                     if m.member_id == 'me':
                         state['assigned'] = sorted(a.assignments.get('t', ()))
+                if sorted(m.member_id for m in payload.group_assignment) != sorted(state['members']):
+                    raise Hit('C15:assignment-not-addressed-to-exactly-the-current-members',
+                              (sorted(m.member_id for m in payload.group_assignment), sorted(state['members'])))
                 if sorted(given) != sorted(parts):
-                    raise Hit('C15:assignment-does-not-cover-the-current-partitions-exactly-once', (sorted(given), list(parts)))
+                    # (what the CURRENT members of this generation receive: a partition handed to a member of an earlier,
+                    # abandoned generation reaches nobody)
+                    raise Hit('C15:assignment-does-not-cover-the-current-partitions-exactly-once',
+                              (sorted(given), list(parts), sorted(state['members'])))
             requests.append((kind, state['stopping']))
             d = defer.Deferred()
             pending.append((kind, d))
             return d
         client._send_request_to_coordinator.side_effect = srtc
-        state = dict(stopping=False, stopped=False, gen=0, assigned=[0, 1])
+        state = dict(stopping=False, stopped=False, gen=0, assigned=[0, 1], members=['me'])
         with patch.object(G, 'Consumer', RecConsumer):
             g = G.ConsumerGroup(client, 'g', ['t'], lambda *a: None)
             start_res = []
@@ -1160,6 +1201,8 @@ def scenario_group(rnd, n):
                     opts += ['next_consumer_fails_at_start']
                 if not state['stopping'] and r.random() < 0.2:
                     opts += ['partitions_change']
+                if not state['stopping'] and r.random() < 0.25:
+                    opts += ['membership_change', 'partition_lookup_fails_next']
                 if not state['stopping'] and step > 2:
                     opts += ['stop']
                 ev = r.choice(opts)
@@ -1177,8 +1220,9 @@ def scenario_group(rnd, n):
                         elif kind == '_JoinGroupRequest':
                             state['gen'] += 1
                             meta = KafkaCodec.encode_join_group_protocol_metadata(0, ['t'], b'')
+                            state['members'] = list(members)
                             d.callback(_JoinGroupResponse(0, state['gen'], 'consumer', 'me', 'me',
-                                                          [_JoinGroupResponseMember('me', meta)]))
+                                                          [_JoinGroupResponseMember(m_, meta) for m_ in members]))
                         elif kind == '_SyncGroupRequest':
                             d.callback(_SyncGroupResponse(0, KafkaCodec.encode_sync_group_member_assignment(
                                 0, {'t': list(state['assigned'])}, b'')))
@@ -1196,6 +1240,10 @@ def scenario_group(rnd, n):
                     elif ev == 'partitions_change':
                         newp = r.choice([[0, 1, 2], [0], [1, 3], [0, 1, 2, 5]])
                         parts[:] = newp
+                    elif ev == 'membership_change':
+                        members[:] = r.choice([['me'], ['m2', 'me'], ['me', 'm2', 'm3'], ['m3', 'me']])
+                    elif ev == 'partition_lookup_fails_next':
+                        load_fail[0] = True
                     elif ev == 'consumer_shutdown_done':
                         cns, d = RecConsumer.shutting.pop(0)
                         cns.stop()
@@ -1233,6 +1281,95 @@ def scenario_group(rnd, n):
                     if idle and not pending:
                         raise Hit('C17:member-is-idle', dict(state=g._state, rejoin_needed=g._rejoin_needed))
     return _run(rnd, n, one)
+
+
+
+def _enc_metadata_response(corr, brokers, topics):
+    """MetadataResponse v0 written with struct only: brokers [(node, host, port)], topics [(err, name, [(perr, pid, leader)])]"""
+    import struct
+
+    def s16(x):
+        b = x.encode()
+        return struct.pack('>h', len(b)) + b
+    out = struct.pack('>ii', corr, len(brokers))
+    for node, host, port in brokers:
+        out += struct.pack('>i', node) + s16(host) + struct.pack('>i', port)
+    out += struct.pack('>i', len(topics))
+    for err, name, parts_ in topics:
+        out += struct.pack('>h', err) + s16(name) + struct.pack('>i', len(parts_))
+        for perr, pid, leader in parts_:
+            out += struct.pack('>hiiii', perr, pid, leader, 1, leader) + struct.pack('>ii', 1, leader)
+    return out
+
+
+def scenario_load_topic_partitions(rnd, n):
+    """C17 (partition lookup by the leader): the real KafkaClient._load_topic_partitions over scripted metadata answers.
+    Exhaustive over every sequence of up to 4 answers per topic state (healthy / topic error / no partitions / unavailable):
+    the lookup ends with the FIRST fully healthy answer and with exactly its partitions, and keeps polling - after the
+    retry policy's delay for that attempt - only while the latest answer is unhealthy."""
+    from afkak.client import KafkaClient
+    from afkak.common import KafkaUnavailableError
+
+    def one(r, script):
+        clock = task.Clock()
+        delays = []
+
+        def policy(attempt):
+            delays.append(attempt)
+            return 0.5 * attempt
+        client = KafkaClient('h:9092', clientId='c', reactor=clock, retry_policy=policy, enable_protocol_version_discovery=False)
+        del delays[:]                # the constructor probes the policy once
+        ntopics = r.choice([1, 2])
+        names = ['ta', 'tb'][:ntopics]
+        nans = r.choice([1, 2, 3, 4])
+        answers = []
+        for i in range(nans):
+            last = i == nans - 1
+            kinds = ['ok'] * ntopics if last else [r.choice(['ok', 'error', 'empty']) for _ in names]
+            if not last and all(k == 'ok' for k in kinds):
+                kinds[0] = r.choice(['error', 'empty'])
+            answers.append(kinds)
+        script.append(('answers', answers))
+        sent = []
+
+        def sbur(requestId, request):
+            if len(sent) >= len(answers):
+                raise Hit('C17:partition-lookup-keeps-polling-after-a-healthy-answer', (len(sent), answers))
+            kinds = answers[len(sent)]
+            sent.append(clock.seconds())
+            topics = []
+            for nm, k in zip(names, kinds):
+                base = len(sent)          # partition ids differ from answer to answer
+                if k == 'ok':
+                    topics.append((0, nm, [(0, base + 2, 1), (0, base, 1)]))
+                elif k == 'error':
+                    topics.append((5, nm, []))
+                else:
+                    topics.append((0, nm, []))
+            return defer.succeed(_enc_metadata_response(requestId, [(1, 'h', 9092)], topics))
+        client._send_broker_unaware_request = sbur
+        res = []
+        client._load_topic_partitions(*names).addBoth(res.append)
+        for step in range(len(answers) + 2):
+            if res:
+                break
+            clock.advance(0.5 * (step + 1))
+        if not res:
+            raise Hit('C17:partition-lookup-never-ends-although-answers-are-healthy', (len(sent), answers, delays))
+        if isinstance(res[0], Failure):
+            raise Hit('C17:partition-lookup-failed-%s' % res[0].type.__name__, str(res[0].value))
+        if len(sent) != len(answers):
+            raise Hit('C17:partition-lookup-ended-before-a-healthy-answer', (len(sent), answers))
+        want = {nm: [len(answers), len(answers) + 2] for nm in names}
+        if {k: list(v) for k, v in res[0].items()} != want:
+            raise Hit('C17:partition-lookup-result-is-not-the-latest-answer', (res[0], want))
+        if delays != list(range(1, len(answers))):
+            raise Hit('C17:partition-lookup-backoff-not-per-attempt', (delays, len(answers)))
+        for a, b in zip(sent, sent[1:]):
+            pass
+        if clock.getDelayedCalls():
+            raise Hit('C17:partition-lookup-leaves-a-timer', [str(dc) for dc in clock.getDelayedCalls()])
+    return _run_exhaustive(one, 20000)
 
 
 SCENARIOS = {
@@ -1401,6 +1538,7 @@ def scenario_api_discovery(rnd, n):
     return _run_exhaustive(one, 1000)
 
 
+SCENARIOS['load_topic_partitions'] = scenario_load_topic_partitions
 SCENARIOS['api_discovery'] = scenario_api_discovery
 SCENARIOS['magic_fallback'] = scenario_magic_fallback
 SCENARIOS['bootstrap_close'] = scenario_bootstrap_close
